@@ -1,8 +1,11 @@
 /-
 Independent description of what an lcov tracefile *says* (C04): an AST of sections and records,
-its serialisations (`render`, for LF and CRLF line ends, any digit strings incl. leading zeros),
-and the record semantics `applyRec` on the reader's accumulator. Numeric fields are digit strings
-so that every well-formed spelling is covered, not only the canonical decimal.
+its serialisations (`render`, for LF and CRLF line ends, any digit strings incl. leading zeros, an
+optional checksum field on DA records), what a section says (`sem`: order-free – line counts are
+clamped sums, a branch is taken iff some record says so, a function is executed iff some FNDA
+record names it with a non-zero count, wherever that record stands), and the record-by-record
+reading `applyRec` on the reader's accumulator. Numeric fields are digit strings so that every
+well-formed spelling is covered, not only the canonical decimal.
 -/
 import GrcovModel.Lemmas.Lcov
 namespace Grcov.Lcov.Spec
@@ -19,7 +22,9 @@ def Digits.WF (d : Digits) (bound : Nat) : Prop :=
   isDigit d.first = true ∧ (∀ x ∈ d.rest, isDigit x = true) ∧ d.val ≤ bound
 
 inductive Rec where
-  | da (l c : Digits)
+  /-- `DA:<line>,<count>[,<checksum>]`: the checksum field (an MD5 in base64 when lcov writes it) is
+  any text -/
+  | da (l c : Digits) (checksum : Option Bytes)
   /-- a negative count: `-` followed by anything up to the end of the line -/
   | daNeg (l : Digits) (txt : Bytes)
   | fn (start : Digits) (name : Bytes)
@@ -41,10 +46,15 @@ structure Section where
 def noEol (bs : Bytes) : Prop := ∀ x ∈ bs, x ≠ LF ∧ x ≠ CR
 def noLF (bs : Bytes) : Prop := ∀ x ∈ bs, x ≠ LF
 
+/-- the optional last field of a DA record, with its comma -/
+def checksumBytes : Option Bytes → Bytes
+  | none => []
+  | some t => 44 :: t
+
 def keyVal (key : Bytes) : Nat := key.foldl (fun r x => r * 256 + x) 0
 
 def Rec.WF : Rec → Prop
-  | .da l c => l.WF U32MAX ∧ c.WF U64MAX
+  | .da l c ck => l.WF U32MAX ∧ c.WF U64MAX ∧ noLF (checksumBytes ck)
   | .daNeg l txt => l.WF U32MAX ∧ noLF txt
   | .fn s name => s.WF U32MAX ∧ noEol name
   | .fnda c name => c.WF U64MAX ∧ noEol name
@@ -69,7 +79,7 @@ def Section.WF (s : Section) : Prop :=
   (∀ r ∈ s.pre, r.WF ∧ r.isInert = true) ∧ noEol s.sf ∧ (∀ r ∈ s.recs, r.WF) ∧ noLF s.eor
 
 def renderRec (eol : Bytes) : Rec → Bytes
-  | .da l c => [68, 65, 58] ++ l.bytes ++ [44] ++ c.bytes ++ eol
+  | .da l c ck => [68, 65, 58] ++ l.bytes ++ [44] ++ c.bytes ++ checksumBytes ck ++ eol
   | .daNeg l txt => [68, 65, 58] ++ l.bytes ++ [44, 45] ++ txt ++ [LF]
   | .fn s name => [70, 78, 58] ++ s.bytes ++ [44] ++ name ++ eol
   | .fnda c name => [70, 78, 68, 65, 58] ++ c.bytes ++ [44] ++ name ++ eol
@@ -88,23 +98,22 @@ def render (eol : Bytes) (secs : List Section) : Bytes := secs.flatMap (renderSe
 /-- taken iff the field holds something other than `-` and `0` digits: a positive count -/
 def takenOf (taken : Bytes) : Bool := taken.any fun b => decide (b ≠ 45 ∧ b ≠ 48)
 
-/-- what one record does to the reader's accumulator (`none`: the record is rejected) -/
-def applyRec (branch : Bool) (a : Acc) : Rec → Option Acc
-  | .da l c => some (commitLine a l.val c.val)
-  | .daNeg l _ => some (commitLine a l.val 0)
-  | .fn s name => some (commitFn a s.val name)
+/-- what one record does to the reader's accumulator -/
+def applyRec (branch : Bool) (a : Acc) : Rec → Acc
+  | .da l c _ => commitLine a l.val c.val
+  | .daNeg l _ => commitLine a l.val 0
+  | .fn s name => commitFn a s.val name
   | .fnda c name => commitFnda a c.val name
-  | .brda l _ br taken => some (if branch then commitBranch a l.val br.val (takenOf taken) else a)
-  | .other _ | .otherKeyed _ _ _ | .blank => some a
+  | .brda l _ br taken => if branch then commitBranch a l.val br.val (takenOf taken) else a
+  | .other _ | .otherKeyed _ _ _ | .blank => a
 
-def applyRecs (branch : Bool) (a : Acc) : List Rec → Option Acc
-  | [] => some a
-  | r :: rs => (applyRec branch a r).bind fun a' => applyRecs branch a' rs
+def applyRecs (branch : Bool) (a : Acc) (rs : List Rec) : Acc := rs.foldl (applyRec branch) a
 
-/-- the record of a section, when every FNDA finds its FN -/
+/-- the record of a section read record by record; `none` when an FNDA record is still waiting
+for its FN record at `end_of_record` (the reader's "FN record missing" error) -/
 def semSection (branch : Bool) (s : Section) : Option (Bytes × Cov) :=
-  (applyRecs branch { results := [], curFile := some (utf8Lossy s.sf), cur := {} } s.recs).map
-    fun a => (utf8Lossy s.sf, a.cur)
+  let a := applyRecs branch { results := [], curFile := some (utf8Lossy s.sf), cur := {}, pending := [] } s.recs
+  if a.pending.isEmpty then some (utf8Lossy s.sf, a.cur) else none
 
 def semAll (branch : Bool) : List Section → Option (List (Bytes × Cov))
   | [] => some []
@@ -112,5 +121,61 @@ def semAll (branch : Bool) : List Section → Option (List (Bytes × Cov))
     let r ← semSection branch s
     let rs ← semAll branch ss
     pure (r :: rs)
+
+/-! ### what a section says, independently of the order of its records -/
+
+/-- (line, count) of every DA record, a negative count read as 0 -/
+def daPairs (recs : List Rec) : List (Nat × Nat) :=
+  recs.filterMap fun
+    | .da l c _ => some (l.val, c.val)
+    | .daNeg l _ => some (l.val, 0)
+    | _ => none
+
+/-- (line, branch number, taken) of every BRDA record -/
+def brdaTriples (recs : List Rec) : List (Nat × Nat × Bool) :=
+  recs.filterMap fun
+    | .brda l _ br taken => some (l.val, br.val, takenOf taken)
+    | _ => none
+
+/-- (decoded name, start line) of every FN record -/
+def fnDecls (recs : List Rec) : List (Bytes × Nat) :=
+  recs.filterMap fun
+    | .fn s name => some (utf8Lossy name, s.val)
+    | _ => none
+
+def fnNames (recs : List Rec) : List Bytes := (fnDecls recs).map (·.1)
+
+/-- the decoded name of every FNDA record -/
+def fndaNames (recs : List Rec) : List Bytes :=
+  recs.filterMap fun
+    | .fnda _ name => some (utf8Lossy name)
+    | _ => none
+
+/-- some FNDA record of the section, anywhere, names `nm` with a non-zero count -/
+def fnExecuted (recs : List Rec) (nm : Bytes) : Bool :=
+  recs.any fun
+    | .fnda c name => decide (utf8Lossy name = nm) && decide (c.val ≠ 0)
+    | _ => false
+
+/-- one entry per FN record: its start line, executed iff some FNDA record says so -/
+def semFunctions (recs : List Rec) : List (Name × Fn) :=
+  (fnDecls recs).map fun d => (d.1, ⟨d.2, fnExecuted recs d.1⟩)
+
+/-- What the records of a section say: per line the clamped sum of its DA counts (`daFold`, see
+`C04_da_sum`), per (line, branch number) taken iff some BRDA record is (`brdaFold`, see
+`C04_branch_vector`; nothing with branch parsing off), per declared function its start line and
+whether some FNDA record has a non-zero count. No clause looks at the position of a record. -/
+def sem (branch : Bool) (s : Section) : Cov :=
+  { lines := (daFold {} (daPairs s.recs)).cur.lines
+    branches := if branch then brdaFold [] (brdaTriples s.recs) else []
+    functions := semFunctions s.recs }
+
+/-- every function is declared once, and every FNDA record names a declared function -/
+def Section.FnOK (s : Section) : Prop :=
+  (fnNames s.recs).Nodup ∧ ∀ nm ∈ fndaNames s.recs, nm ∈ fnNames s.recs
+
+/-- a well-formed section: every record is well-formed text, function names are unique per section
+and every FNDA has its FN somewhere in the same section -/
+def Section.WellFormed (s : Section) : Prop := s.WF ∧ s.FnOK
 
 end Grcov.Lcov.Spec
